@@ -962,6 +962,9 @@ class UniformGrid(_HyperRectangleGrid):
         else:
             raise ValueError("`which` parameter was not the standard options.")
 
+        # A point outside the grid belongs to the nearest node on the boundary of the grid.
+        coord = np.clip(coord, 0, np.asarray(self.shape) - 1)
+
         # Convert indices (i, j, k) into index.
         index = self.coordinates_to_index(coord)
 
